@@ -400,12 +400,8 @@ func TestC18(t *testing.T) {
 			}
 		}
 		if v := c18Judge(m, after); v != nil {
-			if id := c18Known(v); id != "" {
-				statsMu.Lock()
-				st.Excluded[id]++
-				statsMu.Unlock()
-				return
-			}
+			// the listed findings are excluded key by key inside the judge: whatever it still
+			// reports is not one of them
 			cf.Violation = v.Error()
 			rt.Fatalf("VIOLATION %s\nhistory: %s", v.Error(), historyString(m))
 		}
@@ -517,21 +513,6 @@ func makeStaleReverseLookup(c *sim.Chain) func(e sim.DiffEntry) bool {
 		}
 		return !found || !bytes.Equal(cur.ToConsAddr(), consAddr)
 	}
-}
-
-// c18Known matches a violation against the listed known findings of C18 that still reproduce.
-func c18Known(v *Violation) string {
-	for name := range activeKnown["C18"] {
-		// name = invariant id / signature; the invariant id (with its module suffix) identifies the finding
-		id := name
-		if i := indexByte(name, '/'); i >= 0 {
-			id = name[:i]
-		}
-		if v.ID == id {
-			return name
-		}
-	}
-	return ""
 }
 
 func indexByte(s string, c byte) int {
